@@ -166,19 +166,21 @@ func ReassembleTOAST(chunks []TOASTChunk, valueID uint32, ptr *TOASTPointer) []b
 
 	data := buf.Bytes()
 
-	// Decompress if needed
-	if ptr != nil && ptr.IsCompressed && len(data) > 0 {
-		rawSize := int(ptr.RawSize)
+	// Decompress if needed.  The external form of a compressed value starts with the 4-byte
+	// va_tcinfo, the stream follows; va_rawsize counts the 4-byte varlena header of the original.
+	if ptr != nil && ptr.IsCompressed && len(data) > 4 && ptr.RawSize >= 4 {
+		rawSize := int(ptr.RawSize) - 4
+		stream := data[4:]
 		
 		// Try LZ4 first if compression method indicates it
 		if ptr.CompressionMethod == ToastCompressionLZ4 {
-			if decompressed, err := decompressLZ4(data, rawSize); err == nil {
+			if decompressed, err := decompressLZ4(stream, rawSize); err == nil {
 				return decompressed
 			}
 		}
 		
 		// Try pglz
-		if decompressed, err := decompressPGLZ(data, rawSize); err == nil && len(decompressed) > 0 {
+		if decompressed, err := decompressPGLZ(stream, rawSize); err == nil && len(decompressed) > 0 {
 			return decompressed
 		}
 		
